@@ -83,6 +83,44 @@ INFO = {
  "C19-m4": ("day_of_year via a 12-entry table indexed by month - 1", "a MONTH value of 0 or above 12 in a SCHEDULE-PD"),
  "C20-m3": ("sun data memoised per (day, hour) without the latitude", "two latitudes evaluated in one thread"),
  "C20-m4": ("December missing from a compile-time elapsed-days table", "any December date"),
+ "C01-m5": ("f_shobst significance test rewritten NaN-unsafe: a KyG row with zero radiation stores Some(NaN)", "--use-extra with a KyG window row whose radiation columns are all 0"),
+ "C01-m6": ("used window constructions deduplicated through a HashSet", "a project with two or more window constructions, tool process vs library call"),
+ "C02-m5": ("catalogue cached in a static and project definitions merged into the cached object", "the intact project converted before the broken variant in one process"),
+ "C02-m6": ("only used condition blocks exported, thermostats filtered on the SPACE-CONDITIONS name", "a SYSTEM-CONDITIONS name that is not also a SPACE-CONDITIONS name"),
+ "C03-m5": ("space placement composed as rot * translation", "a SPACE with both an X/Y offset and an AZIMUTH"),
+ "C03-m6": ("rectangular shade tilt wrapped into [0,180)", "a rectangle-defined shade with TILT = 180"),
+ "C04-m5": ("WinCons.c_100 gets skip_serializing_if = is_default (0.0) with a default of 50", "a window construction with c_100 = 0"),
+ "C04-m6": ("bridge length rounded to cm on save while the skip test sees the raw value", "a length with a third decimal / below 0.005"),
+ "C05-m5": ("fin shades built with ..Default::default(): random ids", "a window with a left or right fin"),
+ "C05-m6": ("Q_sol;jul summed in HashMap order", "windows in three or more orientations, exact comparison of repeated computations"),
+ "C06-m5": ("outside-envelope term of the partition formula uses gross wall area plus windows", "a window in an exterior wall of the unconditioned neighbour"),
+ "C06-m6": ("material guard moved out of the GROUND arm", "a ground slab whose construction has a layer without material"),
+ "C07-m5": ("user shading factor lost when the glazing does not resolve", "user g_gl;sh;wi together with a nil / dangling glass"),
+ "C07-m6": ("glazed fraction rounded to whole percents", "a frame fraction with a third decimal"),
+ "C08-m5": ("window filter of K copied from n50 (EXTERIOR only)", "a window on a GROUND envelope wall"),
+ "C08-m6": ("per-wall window area table built with chunk_by", "windows of one wall not adjacent in model.windows"),
+ "C09-m5": ("envelope membership of every wall decided from next_to", "an exterior wall with a stale next_to"),
+ "C09-m6": ("walls with zero net area skipped together with their windows", "a fully glazed exterior wall"),
+ "C10-m5": ("per-orientation gains rebuilt from the means", "two windows of one orientation differing in two of F_sh, g, F_f"),
+ "C10-m6": ("a_wp accumulated without the space multiplier", "a qualifying window in a space with multiplier != 1"),
+ "C11-m5": ("normalize wraps only one turn", "angles below -360 or from 720 up"),
+ "C11-m6": ("Space::area rounds each floor slab to two decimals before summing", "several slabs with a third decimal, a large multiplier or a small scale"),
+ "C12-m5": ("to_polygon_coords_matrix composed as rot * trans", "a wall polygon that neither starts at the local origin nor runs along +x first"),
+ "C12-m6": ("sill reveal of set-back windows dropped", "a set-back roof window (tilt < 90) with the sun low along the slope"),
+ "C13-m5": ("BVH leaf loop accepts only t >= 0", "box obstacles with the ray origin inside one box"),
+ "C13-m6": ("plane-crossing distance without the normal's sign", "a clockwise polygon or a concave one starting at a reflex corner"),
+ "C14-m5": ("half-split fallback kept only for an empty left side", "more than 30 occluders with coinciding centres whose f32 mean rounds upward (hang)"),
+ "C14-m6": ("occupancy years indexed without the length guard", "two occupied spaces whose people schedules expand to different day counts"),
+ "C15-m5": ("adjacent-space check only on INTERIOR walls", "a non-interior wall with a dangling next_to"),
+ "C15-m6": ("negative bridge length decided by the sign bit", "a bridge of length -0.0"),
+ "C16-m5": ("kept schedules compacted with sort_unstable_by_key", "lists of several dozen schedules with used and unused interleaved"),
+ "C16-m6": ("bridges with negative length purged as if zero", "a bridge with l < 0"),
+ "C17-m5": ("expanded weeks cached by week id, already rotated", "one week reused in two periods starting on different weekdays"),
+ "C17-m6": ("area weights lost when spaces share a loads definition", "two spaces sharing loads plus a third with other loads"),
+ "C18-m5": ("quote trimming hoisted before multi-line list detection", "a quoted string starting with ( or a list line ending after a closing quote"),
+ "C18-m6": ("off-by-one column in the KyG gains lines", "a window whose h2 differs from h3"),
+ "C20-m5": ("beam floor raised from 0.01 to 1 degree", "sun below 1 degree with direct radiation > 0"),
+ "C20-m6": ("asin argument clamped on one side only", "afternoon sun exactly due west (NaN)"),
 }
 res = {}
 try:
